@@ -67,6 +67,11 @@ func tryReplay(o *vc.Obligation, prop, dir string) (bool, string) {
 		out, _ := exec.CommandContext(ctx, "z3-new", "-T:30", "-smt2", qf).CombinedOutput()
 		cancel()
 		s = strings.TrimSpace(string(out))
+		if dbg := os.Getenv("GOVC_DEBUG_REPLAY"); dbg != "" {
+			os.MkdirAll(dbg, 0o755)
+			os.WriteFile(filepath.Join(dbg, fmt.Sprintf("%s.attempt%d.smt2", sanitizeName(o.Name), attempt)), []byte(q), 0o644)
+			fmt.Fprintf(os.Stderr, "replay %s attempt %d: %.40s\n", o.Name, attempt, s)
+		}
 		if strings.HasPrefix(s, "sat") {
 			break
 		}
